@@ -453,7 +453,7 @@ func (r *runner) react(u *ulInfo, m *Msg) []dlMsg {
 			switch u.gsmType {
 			case nas.MsgTypePDUSessionEstablishmentRequest:
 				ue.PSI, ue.PTI = int(u.psi), int(u.pti)
-				acc := NasPDUSessionEstablishmentAccept(u.psi, u.pti, net.ParseIP(ue.Choice.UEIP), sst, sd, "internet")
+				acc := NasPDUSessionEstablishmentAcceptQos(u.psi, u.pti, net.ParseIP(ue.Choice.UEIP), sst, sd, "internet", ue.Choice.QosExtra)
 				n := r.protect(ue, NasDLTransport(u.psi, acc), nas.SecurityHeaderTypeIntegrityProtectedAndCiphered)
 				tr := SetupRequestTransfer(net.ParseIP(ue.Choice.UPFIP), ue.Choice.TEID)
 				return []dlMsg{{PDUSessionResourceSetupRequest(amfID, ue.RanUeID, int64(u.psi), sst, sd, n, tr),
